@@ -598,6 +598,9 @@ func (w *world) Finished(e *sim.Env) bool {
 				}
 			}
 			w.checkNodes("after the final Clear")
+			if _, infl, _, _, _ := w.cache.State(); infl != 0 {
+				e.Violate(w.delProp(), "inflight_left", "no call is in progress but the in-flight table still has %d entries: a creation slot was left behind (the next caller of that key waits for a creation nobody runs)", infl)
+			}
 			w.phase = 2
 		}, nil)
 		return false
